@@ -68,6 +68,8 @@ inline uint64_t mix64(uint64_t a, uint64_t b) {
   x ^= x >> 33; x *= 0xff51afd7ed558ccdULL; x ^= x >> 33; x *= 0xc4ceb9fe1a85ec53ULL; x ^= x >> 33;
   return x;
 }
+// bit pattern of a double (for signatures: a float->integer cast of an out-of-range value is undefined)
+inline uint64_t dbits(double d) { uint64_t u; memcpy(&u, &d, 8); return u; }
 
 // ---------------------------------------------------------------- JSON helpers
 inline std::string jstr(const std::string& s) {
